@@ -365,3 +365,41 @@ class CountList(SOpaque):
             else:
                 raise Unsupported("list display mixing a counted list with something else")
         return CountList(self.name + "+", n)
+
+
+class _WitnessName(SOpaque):
+    """the `name` of the existential witness of a NamedList: comparing it with x asks whether some element is named x"""
+
+    def __init__(self, owner):
+        super().__init__("name-of-some-element", cls=str)
+        self.owner = owner
+
+    def eq_any(self, I, other):
+        return z3.IsMember(I.to_str_term(other), self.owner.names)
+
+
+class NamedList(SOpaque):
+    """a python list of records of unknown length of which the code only asks `any(x for x in L if x.name == n)` and to
+    which it appends: the set of the names of its elements (a z3 set term).  Iterating it yields ONE element, the
+    existential witness, whose .name compares equal to n exactly when some element is named n -- sound for the
+    `any(... if x.name == n)` idiom only (any other use of the witness is out of reach)."""
+
+    def __init__(self, name, names=None):
+        super().__init__(name, cls=list)
+        self.names = names if names is not None else z3.EmptySet(z3.StringSort())
+
+    def iterate_hook(self, I):
+        w = SOpaque("some element of " + self.name, cls=object)
+        w.attrs["name"] = _WitnessName(self)
+        w.getattr = lambda I2, n: (_ for _ in ()).throw(Unsupported(f"attribute {n} of the existential witness of a list"))
+        return [w]
+
+    def getattr(self, I, name):
+        if name == "append":
+            def append(I2, a, k):
+                self.names = z3.SetAdd(self.names, I2.to_str_term(I2.get_attr(a[0], "name")))
+            return SFunc("model", append)
+        raise Unsupported(f"list method {name} on a list known by the names of its elements")
+
+    def deepcopy_hook(self):
+        return NamedList(self.name + "'", self.names)
